@@ -147,6 +147,8 @@ func (p *PolicyManager) Run() {
 	p.syncNetworkPolices()
 	p.syncNetworkPolicyRules()
 	p.syncPods()
+	// stale policy chains which were still referenced by pod chains can only be deleted after pod chains are synced
+	p.syncNetworkPolicyRules()
 }
 
 func (p *PolicyManager) syncPods() {
@@ -505,9 +507,11 @@ func (p *PolicyManager) syncIptables(polices []policy) error {
 	// Get iptables-save output so we can check for existing chains and rules.
 	// This will be a map of chain name to chain with rules as stored in iptables-save/iptables-restore
 	existingChains := make(map[utiliptables.Chain]string) // nolint: staticcheck
+	var referencedChains map[utiliptables.Chain]bool
 	if err := p.iptableHandle.SaveInto(utiliptables.TableFilter, iptablesSaveRaw); err != nil {
 		return fmt.Errorf("failed to execute iptables-save, syncing all rules: %v", err)
 	} else { // otherwise parse the output
+		referencedChains = jumpTargets(iptablesSaveRaw.String())
 		existingChains = utiliptables.GetChainLines(utiliptables.TableFilter, iptablesSaveRaw.Bytes())
 	}
 	filterChains := bytes.NewBuffer(nil)
@@ -518,7 +522,7 @@ func (p *PolicyManager) syncIptables(polices []policy) error {
 	activeChains := map[utiliptables.Chain]bool{}
 	p.writeRules(polices, existingChains, filterChains, activeChains, filterRules)
 
-	p.writeChains(existingChains, activeChains, filterChains, filterRules)
+	p.writeChains(existingChains, activeChains, referencedChains, filterChains, filterRules)
 	writeLine(filterRules, "COMMIT")
 
 	lines := append(filterChains.Bytes(), filterRules.Bytes()...)
@@ -529,15 +533,37 @@ func (p *PolicyManager) syncIptables(polices []policy) error {
 	return nil
 }
 
+// jumpTargets returns the targets of all jump rules of an iptables-save output
+func jumpTargets(iptablesSave string) map[utiliptables.Chain]bool {
+	targets := map[utiliptables.Chain]bool{}
+	for _, line := range strings.Split(iptablesSave, "\n") {
+		if !strings.HasPrefix(line, "-A") {
+			continue
+		}
+		parts := strings.Fields(line)
+		for i := 0; i+1 < len(parts); i++ {
+			if parts[i] == "-j" {
+				targets[utiliptables.Chain(parts[i+1])] = true
+			}
+		}
+	}
+	return targets
+}
+
 func (p *PolicyManager) writeChains(existingChains map[utiliptables.Chain]string,
-	activeChains map[utiliptables.Chain]bool, filterChains *bytes.Buffer, filterRules *bytes.Buffer) {
+	activeChains, referencedChains map[utiliptables.Chain]bool, filterChains *bytes.Buffer,
+	filterRules *bytes.Buffer) {
 	// Delete chains no longer in use.
-	// TODO fix if any pod reference this policy chain
 	for chain := range existingChains {
 		if !activeChains[chain] {
 			chainString := string(chain)
 			if !strings.HasPrefix(chainString, policyChainPrefix) {
 				// Ignore chains that aren't ours.
+				continue
+			}
+			if referencedChains[chain] {
+				// iptables-restore fails as a whole if we delete a chain which a pod chain still jumps to.
+				// Leave it as is until pod chains are synced.
 				continue
 			}
 			// We must (as per iptables) write a chain-line for it, which has
